@@ -38,13 +38,34 @@ BasicPool      == {"void", "bool", "unsigned char", "char", "int", "size_t", "do
 ValueBasicPool == BasicPool \ {"void"}
 BinOps         == OperatorSyms \ {"()", "[]"}
 
+Exec == Profile = "exec"
+LibTypes == {<<"Key">>, <<"gtsam", "Pose3">>, <<"gtsam", "Point3">>, <<"lib", "geo", "Shape">>, <<"Vector">>}
+LibTemplates == {<<"lib", "Seq">>, <<"lib", "Box">>}   \* (std::vector rejects const / reference element types)
+\* a literal that initialises a value of the given basic type
+LiteralFor(n) == CASE n = "int" -> "-1" [] n = "size_t" -> "3" [] n = "double" -> "1.5" [] n = "float" -> "2.5f" [] n = "bool" -> "true"
+                   [] n = "char" -> "'c'" [] n = "unsigned char" -> "7" [] OTHER -> "0"
 RandQual(u) == LET r == Pct(0) IN IF r <= 40 THEN "" ELSE IF r <= 60 THEN "&" ELSE IF r <= 80 THEN "*" ELSE "@"
 RandConst(u) == Pct(0) <= 35
 
 \* a plain (non-templated) type; params in scope may be used directly or scoped (T::Value)
+RandPlainExec(ctx, allowVoid) ==
+  LET r == Pct(0)
+      declared == SelectSeq(ctx.items, LAMBDA d : d.k = "class" /\ d.tmpl = <<>>)
+  IN
+  IF r <= 30 THEN Ty(<<Pick(IF allowVoid THEN BasicPool ELSE ValueBasicPool)>>, <<>>, RandConst(0), IF Pct(0) <= 70 THEN "" ELSE "&", TRUE)
+  ELSE IF r <= 35 THEN Ty(<<"string">>, <<>>, RandConst(0), IF Pct(0) <= 60 THEN "" ELSE "&", FALSE)     \* no smart pointers to converted types
+  ELSE IF r <= 50 /\ ctx.tparams # {} THEN Ty(<<Pick(ctx.tparams)>>, <<>>, RandConst(0), RandQual(0), FALSE)
+  ELSE IF r <= 56 /\ ctx.tparams # {} THEN Ty(<<Pick(ctx.tparams), Pick(ScopedPool)>>, <<>>, RandConst(0), Pick({"", "&"}), FALSE)
+  ELSE IF r <= 64 /\ ctx.cls # "" THEN Ty(<<"This">>, <<>>, RandConst(0), RandQual(0), FALSE)
+  ELSE IF r <= 68 /\ ctx.cls # "" THEN Ty(<<"This", Pick(ScopedPool)>>, <<>>, RandConst(0), Pick({"", "&"}), FALSE)
+  ELSE IF r <= 80 /\ Len(declared) > 0
+  THEN Ty(ctx.nspath \o <<declared[Pick(1..Len(declared))].name>>, <<>>, RandConst(0), RandQual(0), FALSE)
+  ELSE Ty(Pick(LibTypes), <<>>, RandConst(0), RandQual(0), FALSE)
+
 RandPlain(ctx, allowVoid) ==
   LET r == Pct(0) IN
-  IF r <= 25 THEN Ty(<<Pick(IF allowVoid THEN BasicPool ELSE ValueBasicPool)>>, <<>>, RandConst(0), RandQual(0), TRUE)
+  IF Exec THEN RandPlainExec(ctx, allowVoid)
+  ELSE IF r <= 25 THEN Ty(<<Pick(IF allowVoid THEN BasicPool ELSE ValueBasicPool)>>, <<>>, RandConst(0), RandQual(0), TRUE)
   ELSE IF r <= 40 /\ ctx.tparams # {} THEN Ty(<<Pick(ctx.tparams)>>, <<>>, RandConst(0), RandQual(0), FALSE)
   ELSE IF r <= 48 /\ ctx.tparams # {} THEN Ty(<<Pick(ctx.tparams), Pick(ScopedPool)>>, <<>>, RandConst(0), RandQual(0), FALSE)
   ELSE IF r <= 54 /\ ctx.cls # "" THEN Ty(<<"This">>, <<>>, RandConst(0), RandQual(0), FALSE)
@@ -55,13 +76,16 @@ RECURSIVE RandType(_, _)
 RandType(ctx, d) ==
   IF d = 0 \/ Pct(0) <= 65 THEN RandPlain(ctx, FALSE)
   ELSE LET n == IF Pct(0) <= 70 THEN 1 ELSE 2
-       IN Ty(Pick(TemplNamePool), [i \in 1..n |-> RandType(ctx, d - 1)], RandConst(0), RandQual(0), FALSE)
+       IN IF Exec THEN Ty(Pick(LibTemplates), <<RandType(ctx, d - 1)>>, RandConst(0), RandQual(0), FALSE)
+          ELSE Ty(Pick(TemplNamePool), [i \in 1..n |-> RandType(ctx, d - 1)], RandConst(0), RandQual(0), FALSE)
 
 \* a typename (no qualifiers) for instantiation lists / typedef targets / bases; numbers are allowed as arguments
 RECURSIVE RandTypename(_)
 RandTypename(d) ==
   LET r == Pct(0) IN
-  IF d = 0 \/ r <= 60
+  IF Exec THEN (IF d = 0 \/ r <= 70 THEN TN(Pick(LibTypes), <<>>)     \* class types only: T::Value must exist
+                ELSE TN(Pick(LibTemplates), <<RandTypename(0)>>))
+  ELSE IF d = 0 \/ r <= 60
   THEN IF r <= 8 THEN TN(<<Pick({"3", "2", "12"})>>, <<>>)
        ELSE IF r <= 25 THEN TN(<<Pick({"double", "int", "size_t", "string"})>>, <<>>)
        ELSE TN(Pick(NsPathPool) \o <<Pick(CustomPool)>>, <<>>)
@@ -75,12 +99,28 @@ RandDistinct(pool, n) ==
   IF n = 0 THEN <<>>
   ELSE LET x == Pick(pool) IN <<x>> \o RandDistinct(pool \ {x}, n - 1)
 
+RECURSIVE RandArgSeq(_, _, _, _, _)
+RandArgSeq(ctx, names, n, nd, i) ==
+  IF i > n THEN <<>>
+  ELSE << Arg(RandType(ctx, 2), names[i], i > n - nd, IF i > n - nd THEN RandDefault(0) ELSE "") >> \o RandArgSeq(ctx, names, n, nd, i + 1)
+RECURSIVE RandArgSeqN(_, _, _, _)
+RandArgSeqN(ctx, names, n, i) == IF i > n THEN <<>> ELSE << Arg(RandType(ctx, 1), names[i], FALSE, "") >> \o RandArgSeqN(ctx, names, n, i + 1)
+
 \* argument lists: distinct names; defaults only in a trailing block
 RandArgs(ctx, maxn) ==
   LET n  == Pick(0..maxn)
       nd == IF Pct(0) <= 30 THEN Pick(0..n) ELSE 0
       names == RandDistinct(ArgNamePool, n)
-  IN [i \in 1..n |-> Arg(RandType(ctx, 2), names[i] , i > n - nd, IF i > n - nd THEN RandDefault(0) ELSE "")]
+      \* (built with \o: a function constructor [i \in S |-> e] is evaluated lazily at EVERY application, which would
+      \* draw new random types each time an element is looked at)
+      raw == RandArgSeq(ctx, names, n, nd, 1)
+      \* exec: a default must be a literal of the parameter's type, so only value-passed basic parameters get one, and
+      \* the defaulted ones still form a trailing block
+      okdef(a) == a.t.basic /\ a.t.q = "" /\ a.t.qn # <<"void">>
+      lastbad == IF \E i \in 1..n : raw[i].hasdef /\ ~okdef(raw[i]) THEN CHOOSE i \in 1..n : raw[i].hasdef /\ ~okdef(raw[i]) /\ \A j \in (i + 1)..n : ~(raw[j].hasdef /\ ~okdef(raw[j])) ELSE 0
+  IN IF Exec THEN [i \in 1..n |-> IF raw[i].hasdef /\ i > lastbad THEN [raw[i] EXCEPT !.def = LiteralFor(raw[i].t.qn[1])]
+                                    ELSE [raw[i] EXCEPT !.hasdef = FALSE, !.def = ""]]
+     ELSE raw
 
 RandRet(ctx) ==
   LET r == Pct(0) IN
@@ -94,45 +134,63 @@ RandTmpl(ctx, withLists) ==
       n == IF Cardinality(avail) >= 2 /\ Pct(0) <= 30 THEN 2 ELSE 1
       p1 == Pick(avail)
       p2 == Pick(avail \ {p1})
-      lst(i) == IF withLists THEN [j \in 1..Pick(1..3) |-> RandTypename(1)] ELSE <<>>
+      ExecArgs == {TN(q, <<>>) : q \in LibTypes} \cup {TN(<<"lib", "Seq">>, <<TN(<<"gtsam", "Pose3">>, <<>>)>>), TN(<<"lib", "Box">>, <<TN(<<"Key">>, <<>>)>>)}
+      lst(i) == IF ~withLists THEN <<>>
+                ELSE IF Exec THEN RandDistinct(ExecArgs, Pick(1..3))            \* (a repeated argument would instantiate the same class twice)
+                ELSE [j \in 1..Pick(1..3) |-> RandTypename(1)]
   IN IF avail = {} THEN <<>>
      ELSE IF n = 1 THEN <<TP(p1, lst(1))>> ELSE <<TP(p1, lst(1)), TP(p2, lst(2))>>
 
 WithParams(ctx, tm) == [ctx EXCEPT !.tparams = @ \cup {tm[i].name : i \in 1..Len(tm)}]
 
+\* exec profile: C++ wants distinct names per scope, so names carry a running number
+Uniq(name, k) == IF Exec THEN name \o ToString(k) ELSE name
+RandArgsN(ctx, n) ==
+  LET names == RandDistinct(ArgNamePool, n) IN RandArgSeqN(ctx, names, n, 1)
+
 RandEnum(asMember) ==
   LET n == Pick(1..4)
       names == RandDistinct(EnumeratorPool, n)
   IN EnumN(Pick(EnumNamePool), Pick({"", "", "class", "struct"}), names)
+RandEnumU(k) == LET e == RandEnum(TRUE) IN [e EXCEPT !.name = Uniq(e.name, k),
+                                                          !.enumerators = [i \in 1..Len(e.enumerators) |-> Uniq(e.enumerators[i], k)]]
 
 RandMember(ctx) ==
   LET r == Pct(0) IN
   IF r <= 18 THEN
        LET tm == IF Pct(0) <= 20 THEN RandTmpl(ctx, TRUE) ELSE <<>>
-       IN Ctor(ctx.cls, tm, RandArgs(WithParams(ctx, tm), 3))
+       IN IF Exec THEN Ctor(ctx.cls, <<>>, RandArgsN(ctx, IF ctx.nmembers > 4 THEN 4 ELSE ctx.nmembers))
+          ELSE Ctor(ctx.cls, tm, RandArgs(WithParams(ctx, tm), 3))
   ELSE IF r <= 50 THEN
        LET tm == IF Pct(0) <= 20 THEN RandTmpl(ctx, TRUE) ELSE <<>>
            c2 == WithParams(ctx, tm)
            \* names with special treatment in the generators come up often
            nm == IF Pct(0) <= 12 THEN "print" ELSE IF Pct(0) <= 6 THEN "serialize" ELSE Pick(MethodNamePool)
-       IN Method(nm, tm, RandRet(c2), RandArgs(c2, 3), Pct(0) <= 50)
+       IN Method(IF Exec /\ nm = "print" /\ ctx.nmembers # 1 THEN Uniq("show", ctx.nmembers) ELSE IF nm = "print" THEN nm
+                 ELSE IF Exec /\ nm = "serialize" THEN Uniq("ser", ctx.nmembers) ELSE Uniq(nm, ctx.nmembers),
+                 tm, RandRet(c2), RandArgs(c2, 3), IF Exec /\ nm = "print" THEN TRUE ELSE Pct(0) <= 50)    \* (print is const in a conforming library: __repr__ calls it on a const reference)
   ELSE IF r <= 65 THEN
        LET tm == IF Pct(0) <= 20 THEN RandTmpl(ctx, TRUE) ELSE <<>>
            c2 == WithParams(ctx, tm)
-       IN Static(Pick(StaticNamePool), tm, RandRet(c2), RandArgs(c2, 3))
+       IN Static(Uniq(Pick(StaticNamePool), ctx.nmembers), tm, RandRet(c2), RandArgs(c2, 3))
   ELSE IF r <= 78 THEN
-       LET hd == Pct(0) <= 20 IN Prop(RandType(ctx, 1), Pick(VarNamePool), hd, IF hd THEN RandDefault(0) ELSE "")
-  ELSE IF r <= 88 THEN
+       LET hd == Pct(0) <= 20 /\ ~Exec
+           t0 == RandType(ctx, 1)
+           \* (a reference member has no pointer-to-member; exec keeps value / pointer members)
+           t1 == IF Exec /\ t0.qn = <<"This">> THEN [t0 EXCEPT !.q = "*"]          \* (a class cannot hold itself by value)
+                 ELSE IF Exec /\ t0.q = "&" THEN [t0 EXCEPT !.q = ""] ELSE t0
+       IN Prop(t1, Uniq(Pick(VarNamePool), ctx.nmembers), hd, IF hd THEN RandDefault(0) ELSE "")
+  ELSE IF r <= 88 /\ (~Exec \/ ctx.nmembers = 2) THEN
        LET self == Ty(<<ctx.cls>>, <<>>, FALSE, "", FALSE)
            k == Pct(0)
        IN IF k <= 20 THEN Oper(Pick({"+", "-"}), Ret1(self), <<>>)
           ELSE IF k <= 40 THEN Oper(Pick({"()", "[]"}), Ret1(RandType(ctx, 1)), <<Arg(RandType(ctx, 1), Pick(ArgNamePool), FALSE, "")>>)
           ELSE Oper(Pick(BinOps), Ret1(self),
                     <<Arg(Ty(<<ctx.cls>>, <<>>, TRUE, "&", FALSE), Pick(ArgNamePool), FALSE, "")>>)
-  ELSE IF r <= 93 THEN
-       LET k == Pick({"len", "iter", "contains"})
+  ELSE IF r <= 93 /\ (~Exec \/ ctx.nmembers = 3) THEN
+       LET k == IF Exec THEN Pick({"len", "iter"}) ELSE Pick({"len", "iter", "contains"})
        IN Dunder(k, IF k = "contains" THEN <<Arg(RandType(ctx, 1), Pick(ArgNamePool), FALSE, "")>> ELSE <<>>)
-  ELSE RandEnum(TRUE)
+  ELSE RandEnumU(ctx.nmembers)
 
 RandClassHdr(ctx) ==
   LET tm == IF Pct(0) <= 30 THEN RandTmpl([ctx EXCEPT !.tparams = {}], TRUE) ELSE <<>>
@@ -140,12 +198,17 @@ RandClassHdr(ctx) ==
       base == IF Pct(0) <= 30 THEN TN(Pick(NsPathPool) \o <<Pick(CustomPool)>>,
                                    <<IF tm # <<>> /\ Pct(0) <= 50 THEN TN(<<tm[1].name>>, <<>>) ELSE RandTypename(0)>>)
               ELSE TN(Pick(NsPathPool) \o <<Pick(CustomPool)>>, <<>>)
-  IN ClassN(Pick(ClassNamePool), tm, Pct(0) <= 40, hasbase, IF hasbase THEN base ELSE NoType, <<>>)
+      declared == SelectSeq(ctx.items, LAMBDA d : d.k = "class" /\ d.tmpl = <<>>)
+      ebase == IF Len(declared) > 0 /\ Pct(0) <= 60 THEN TN(ctx.nspath \o <<declared[Pick(1..Len(declared))].name>>, <<>>)
+               ELSE IF Pct(0) <= 50 THEN TN(<<"lib", "Box">>, <<IF tm # <<>> THEN TN(<<tm[1].name>>, <<>>) ELSE TN(<<"double">>, <<>>)>>)
+               ELSE TN(<<"lib", "geo", "Shape">>, <<>>)
+  IN IF Exec THEN ClassN(Uniq(Pick(ClassNamePool), ctx.cnt), tm, Pct(0) <= 40, hasbase, IF hasbase THEN ebase ELSE NoType, <<>>)
+     ELSE ClassN(Pick(ClassNamePool), tm, Pct(0) <= 40, hasbase, IF hasbase THEN base ELSE NoType, <<>>)
 
 RandLeaf(ctx) ==
   LET r == Pct(0) IN
-  IF r <= 10 THEN Include(Pick(HeaderPool))
-  ELSE IF r <= 22 THEN
+  IF r <= 10 /\ ~Exec THEN Include(Pick(HeaderPool))
+  ELSE IF r <= 22 /\ ~Exec THEN
        LET hp == Pct(0) <= 40
        IN Fwd(Pick(NsPathPool) \o <<Pick(ClassNamePool)>>, Pct(0) <= 50, hp,
               IF hp THEN Pick(NsPathPool) \o <<Pick(ClassNamePool)>> ELSE <<>>)
@@ -154,16 +217,18 @@ RandLeaf(ctx) ==
        LET tpls == SelectSeq(ctx.items, LAMBDA d : d.k \in {"class", "function"} /\ d.tmpl # <<>>) IN
        IF Len(tpls) > 0 /\ Pct(0) <= 85
        THEN LET d == tpls[Pick(1..Len(tpls))] IN
-            Typedef(TN(ctx.nspath \o <<d.name>>, [i \in 1..Len(d.tmpl) |-> RandTypename(1)]), Pick(ClassNamePool))
-       ELSE IF Pct(0) <= 25
+            Typedef(TN(ctx.nspath \o <<d.name>>, [i \in 1..Len(d.tmpl) |-> RandTypename(1)]), Uniq(Pick(ClassNamePool), ctx.cnt))
+       ELSE IF Pct(0) <= 25 /\ ~Exec
        THEN Typedef(TN(Pick(NsPathPool) \o <<Pick(ClassNamePool)>>, [i \in 1..Pick(1..2) |-> RandTypename(1)]),
                     Pick(ClassNamePool))
-       ELSE Include(Pick(HeaderPool))
+       ELSE IF Exec THEN RandEnumU(ctx.cnt) ELSE Include(Pick(HeaderPool))
   ELSE IF r <= 65 THEN
        LET tm == IF Pct(0) <= 25 THEN RandTmpl(ctx, TRUE) ELSE <<>>
            c2 == WithParams(ctx, tm)
-       IN Func(Pick(FuncNamePool), tm, RandRet(c2), RandArgs(c2, 3))
-  ELSE IF r <= 80 THEN RandEnum(FALSE)
+       IN Func(Uniq(Pick(FuncNamePool), ctx.cnt), tm, RandRet(c2), RandArgs(c2, 3))
+  ELSE IF r <= 80 THEN RandEnumU(ctx.cnt)
+  ELSE IF Exec THEN LET b == Pick(ValueBasicPool) hd == Pct(0) <= 50 IN
+                    Var(Ty(<<b>>, <<>>, TRUE, "", TRUE), Uniq(Pick(VarNamePool), ctx.cnt), hd, IF hd THEN LiteralFor(b) ELSE "")
   ELSE LET hd == Pct(0) <= 50 IN Var(RandType(ctx, 1), Pick(VarNamePool), hd, IF hd THEN RandDefault(0) ELSE "")
 
 \* ---- the choice operators handed to IfaceDerive (singletons; empty when the step should not happen)
